@@ -19,6 +19,10 @@ type connStatus struct {
 	*sync.RWMutex
 	cond    *sync.Cond
 	current connStatusValue
+	// reconnects counts how often the connection has entered the reconnecting status. Streams
+	// compare it with the value they were attached at: a reconnect that completes before a
+	// stream's watcher runs is still noticed, although the status is "connected" again.
+	reconnects uint64
 }
 
 func newConnState() *connStatus {
@@ -68,8 +72,18 @@ func (e *connStatus) CompareAndSwapNot(old, new connStatusValue) (swapped bool) 
 func (e *connStatus) SwapWithoutLock(state connStatusValue) (old connStatusValue) {
 	old = e.current
 	e.current = state
+	if state == connStatusReconnecting && old != connStatusReconnecting {
+		e.reconnects++
+	}
 	e.cond.Broadcast()
 	return
+}
+
+// Reconnects returns how often the connection has entered the reconnecting status.
+func (e *connStatus) Reconnects() uint64 {
+	e.RLock()
+	defer e.RUnlock()
+	return e.reconnects
 }
 
 func (e *connStatus) Is(state connStatusValue) bool {
